@@ -86,3 +86,9 @@ def np_ndim(x):
         n += 1
         x = x[0] if x else None
     return n
+
+
+def _classify_c06(name, case, msg):
+    if (name.startswith("x @ x.T") or name.startswith("tensordot")) and "indices not strictly increasing" in msg and case.get("result_type") == "GCXS":
+        return "F-dot-csr-unsorted"
+    return None
